@@ -263,6 +263,7 @@ func checkC03(c *Ctx, r *Report) {
 	c03R3(c, r)
 	c03R4(c, r)
 	c03SuffixIndex(c, r, "C03.R1.suffix-index")
+	namesEscaped(c, r, "C03.R3.names-escaped", "the text form of the name is not the escaped form the parser and IsDomainName work on: text and wire forms of that field do not correspond")
 }
 
 func c03R2(c *Ctx, r *Report) {
